@@ -281,7 +281,7 @@ var intCoercions = map[string]bool{"goutil.RequiredIntegerArgument": true, "gout
 // sliceProducing: calls whose result is a fresh []byte / string of unknown length
 func sliceProducing(fn string) bool {
 	switch fn {
-	case "Bytes", "codec.Decode", "codec.DecodeAppend", "c.Decode", "goutil.RequiredStringArgument", "arg.String", "fill.String", "v.String", "[]byte":
+	case "Bytes", "b.bytes", "codec.Decode", "codec.DecodeAppend", "c.Decode", "goutil.RequiredStringArgument", "arg.String", "fill.String", "v.String", "[]byte":
 		return true
 	}
 	return false
